@@ -84,7 +84,7 @@ ClosedAccrue(s, v, coins) ==
 -----------------------------------------------------------------------------
 (* events *)
 E(ev) == [ev |-> ev, d |-> "", v |-> "", src |-> "", dst |-> "", a |-> "", x |-> "", f |-> "", dt |-> 0, coins |-> NoCoins,
-          signer |-> "authority", legacy |-> FALSE, weight |-> "", wmin |-> "", wmax |-> "", take |-> "", rate |-> "", chgInt |-> 0,
+          signer |-> "authority", legacy |-> FALSE, branch |-> FALSE, weight |-> "", wmin |-> "", wmax |-> "", take |-> "", rate |-> "", chgInt |-> 0,
           delay |-> 0, interval |-> 0, last |-> 0]
 
 Events(s) ==
@@ -185,7 +185,8 @@ Next ==
            r == Apply(st, e)
            post == WithBals(r.s)
            rec == [i |-> depth + 1, ev |-> e.ev, args |-> e,
-                   res |-> [ok |-> r.ok, err |-> r.err, errc |-> ErrClass(r.err), panic |-> FALSE, feff |-> "", burned |-> "", hookErr |-> r.err],
+                   res |-> [ok |-> r.ok, err |-> r.err, errc |-> ErrClass(r.err), panic |-> FALSE, feff |-> "", burned |-> "", hookErr |-> r.err,
+                           same |-> TRUE, detn |-> 0, det |-> TRUE, detDiff |-> ""],
                    probes |-> IF e.ev = "BeginBlock" THEN <<>> ELSE SetToSeq1(ModelProbes(post))]
            gh2 == GhostNext(gh, st, rec, post)
            j == Judge(st, rec, post, gh, gh2)
